@@ -217,6 +217,12 @@ impl Family for Driver {
                 dir.join("out")
             }
         };
+        // the sub-directories relative paths of generated files point into exist (where there is a directory at all)
+        if outdir != "unusable" {
+            for i in 1..=gens.len() {
+                let _ = std::fs::create_dir_all(target.join(format!("sub {i}")));
+            }
+        }
         // generators
         let mut gen_args: Vec<Vec<(String, String)>> = Vec::new();
         let mut pre: Vec<(PathBuf, u64, i64, i64)> = Vec::new(); // pre-existing files: path, inode, mtime, mtime_nsec
@@ -368,6 +374,15 @@ impl Family for Driver {
         if outdir != "absent" {
             stray += std::fs::read_dir(dir.join("cwd")).map(|d| d.count()).unwrap_or(0);
         }
+        // and nothing but what the replies name in the sub-directories
+        for i in 1..=gens.len() as u64 {
+            let allowed = gen_file_name(i, 2);
+            for e in std::fs::read_dir(target.join(format!("sub {i}"))).into_iter().flatten().flatten() {
+                if target.join(&allowed) != e.path() {
+                    stray += 1;
+                }
+            }
+        }
         // pre-existing identical files keep inode and mtime; different ones are replaced (checked through `filers`)
         let mut preexisting_ok = true;
         if outdir == "identical" {
@@ -404,8 +419,13 @@ impl Family for Driver {
     }
 }
 
+/// the second file of a generator lies in a sub-directory (with a blank in its name) of wherever generated files go
 pub fn gen_file_name(index: u64, j: u64) -> String {
-    format!("gen{index}_{j}.txt")
+    if j == 2 {
+        format!("sub {index}/gen{index}_{j}.txt")
+    } else {
+        format!("gen{index}_{j}.txt")
+    }
 }
 pub fn gen_file_contents(index: u64, j: u64) -> String {
     format!("generated by generator {index}, file {j}\nline two \u{e9}\n")
